@@ -99,7 +99,7 @@ def instant_near(rng, now, allow_past=True):
 
 def gen_item(rng, ids, depth, st, kinds):
     it = {"id": ids.next("item"), "shape": rng.randrange(0, 35), "ops": []}
-    if st.get("rets") and depth == 0 and rng.random() < 0.5:
+    if st.get("rets") and rng.random() < (0.5 if depth == 0 else 0.35):
         rid = st["rets"].pop()
         it["holds"] = {"rets": [rid]}
         if rng.random() < 0.4:
